@@ -134,6 +134,14 @@ class SymIntSet(SymContainer):
 
 # ---------------------------------------------------------------- truthiness
 def truth(it, v):
+    if type(v) not in (bool, int, str, list, tuple, dict, type(None)) and not isinstance(v, (Sym, SymContainer)) and it._is_repo_class(type(v)):
+        from .interp import is_repo_function
+        f = it.class_lookup(type(v), "__bool__")
+        if f is not None and is_repo_function(f):
+            return it.truth(it.call(f, [v], {}))
+        f = it.class_lookup(type(v), "__len__")
+        if f is not None and is_repo_function(f):
+            return it.truth(order(it, ast.Gt(), it.call(f, [v], {}), 0))
     if isinstance(v, OptInt):
         return it.decide(z3.And(z3.Not(v.isnone), v.val != 0))
     if isinstance(v, SymList):
@@ -486,6 +494,9 @@ def binop(it, op, a, b):
         return mk_int(A % (b + 1))
     if isinstance(op, ast.BitAnd) and isinstance(a, int) and a >= 0 and (a & (a + 1)) == 0:
         return mk_int(B % (a + 1))
+    if isinstance(op, ast.BitXor) and ((isinstance(b, int) and b == 1) or (isinstance(a, int) and a == 1)):
+        X = A if isinstance(b, int) else B
+        return mk_int(X + 1 - 2 * (X % 2))          # x ^ 1 flips the lowest bit (exact for all python ints)
     raise Unsupported(f"binary op {type(op).__name__} on symbolic ints")
 
 
@@ -1227,11 +1238,20 @@ def _list_index(it, l, x, *a):
 
 
 def _list_count(it, l, x):
+    """count without forking: concrete matches are counted, undetermined ones contribute If(eq, 1, 0)"""
     n = 0
+    terms = []
     for y in l:
-        if it.truth(equal(it, x, y)):
+        e = equal(it, x, y)
+        if e is True:
             n += 1
-    return n
+        elif e is False:
+            continue
+        else:
+            terms.append(z3.If(e.t, 1, 0))
+    if not terms:
+        return n
+    return mk_int(z3.IntVal(n) + z3.Sum(terms))
 
 
 def _list_pop(it, l, *a):
@@ -1587,6 +1607,11 @@ def _int(it, *a):
         return segstr.to_int(it, v)
     if isinstance(v, SEnum):
         raise _PyExc(TypeError("int() argument must be a string, a bytes-like object or a real number, not enum"))
+    if len(a) == 1 and type(v) not in (int, bool, float, str, bytes):
+        from .interp import is_repo_function
+        f = it.class_lookup(type(v), "__int__")
+        if f is not None and is_repo_function(f):
+            return it.call(f, [v], {})
     return it.native(int, a, {})
 
 
@@ -1859,8 +1884,10 @@ def _id(it, v):
     return id(v)
 
 
-def _isinstance_b(it, o, c):
-    return _isinstance(it, o, c)
+def _isinstance_b(it, *a):
+    if len(a) != 2:
+        raise _PyExc(TypeError(f"isinstance expected 2 arguments, got {len(a)}"))
+    return _isinstance(it, a[0], a[1])
 
 
 def _issubclass(it, a, b):
@@ -1912,7 +1939,44 @@ _BUILTINS = {
 }
 
 
+_INT_DUNDER_BIN = {"__add__": ast.Add, "__radd__": ast.Add, "__sub__": ast.Sub, "__mul__": ast.Mult, "__rmul__": ast.Mult,
+                   "__floordiv__": ast.FloorDiv, "__mod__": ast.Mod, "__xor__": ast.BitXor, "__rxor__": ast.BitXor, "__and__": ast.BitAnd,
+                   "__pow__": ast.Pow, "__truediv__": ast.Div, "__lshift__": ast.LShift, "__rshift__": ast.RShift}
+_INT_DUNDER_CMP = {"__lt__": ast.Lt, "__le__": ast.LtE, "__gt__": ast.Gt, "__ge__": ast.GtE}
+
+
+def int_dunder(it, name, args):
+    """``int.__xxx__(value, ...)`` with a symbolic value (the Future wrappers call the int methods explicitly)"""
+    v = _fold_opt(it, args[0])
+    rest = [_fold_opt(it, x) for x in args[1:]]
+    if name in ("__int__", "__index__", "__pos__", "real", "numerator", "__floor__", "__ceil__", "__round__", "conjugate"):
+        return v
+    if name == "__neg__":
+        return binop(it, ast.Sub(), 0, v)
+    if name == "__abs__":
+        return _abs(it, v)
+    if name == "__bool__":
+        return it.truth(v)
+    if name == "__float__":
+        return _float(it, v)
+    if name == "__eq__":
+        return equal(it, v, rest[0])
+    if name == "__ne__":
+        r = equal(it, v, rest[0])
+        return mk_bool(z3.Not(r.t)) if isinstance(r, SBool) else (not r)
+    if name in _INT_DUNDER_CMP:
+        return order(it, _INT_DUNDER_CMP[name](), v, rest[0])
+    if name in _INT_DUNDER_BIN:
+        return binop(it, _INT_DUNDER_BIN[name](), v, rest[0])
+    if name in ("__rsub__",):
+        return binop(it, ast.Sub(), rest[0], v)
+    raise Unsupported(f"int.{name} on a symbolic value")
+
+
 def call(it, fn, args, kwargs):
+    if type(fn).__name__ in ("wrapper_descriptor", "method_descriptor") and getattr(fn, "__objclass__", None) is int \
+            and args and isinstance(_fold_opt(it, args[0]), Sym):
+        return int_dunder(it, fn.__name__, args)
     if isinstance(fn, BoundModel):
         return fn.fn(it, fn.obj, *args, **kwargs)
     if isinstance(fn, FromBuffer):
